@@ -168,6 +168,12 @@ pub fn aimed_overwrite(p: &Parsed, image: &Image, rng: &mut Rng) -> DamageOp {
         }
         (fr.file, off.min(file_len(fr.file).saturating_sub(1)))
     };
+    // the type byte of a frame rewritten to another valid type (a continuation frame posing as a whole entry, ...)
+    if !p.frames.is_empty() && rng.chance(1, 8) {
+        let fr = rng.pick(&p.frames).clone();
+        let other: Vec<u8> = (1u8..=4).filter(|t| *t != fr.ftype).collect();
+        return DamageOp::Bytes { file: fr.file, off: fr.off + 6, data: vec![*rng.pick(&other)] };
+    }
     match rng.below(10) {
         0..=2 => DamageOp::Flip { file, off, bit: rng.below(8) as u8 },
         3 => DamageOp::Garbage { file, off, len: 1, seed: rng.next_u64() },
@@ -514,6 +520,10 @@ pub fn evaluate_damage(prop: &str, case: &Case, fault: &Fault) -> Vec<Failure> {
             let ev = judge(prop, None, &names, case.policy, &case.knobs, &image, None, &format!("raw image class {class} seed {seed}"));
             ev.failures.into_iter().filter(|f| f.prop == prop).collect()
         }
+        Fault::DamageThen { ops, cont } => {
+            let Some((d, image, _parsed)) = base_image(case) else { return Vec::new() };
+            damage_then(prop, &d, case, &image, ops, cont)
+        }
         Fault::Damage { ops } => {
             let Some((d, image, parsed)) = base_image(case) else { return Vec::new() };
             let damaged = apply_damage(&image, ops);
@@ -585,4 +595,59 @@ pub fn correlated_damage(p: &Parsed, rng: &mut Rng) -> Vec<DamageOp> {
             vec![DamageOp::Bytes { file, off: base, data: data.clone() }, DamageOp::Bytes { file, off: base + dist, data }]
         }
     }
+}
+
+/// Damage, open, keep using the log (`cont`), and judge the records it returns at the end by C08's rule.
+pub fn damage_then(prop: &str, d: &Driver, case: &Case, image: &Image, ops: &[DamageOp], cont: &[Op]) -> Vec<Failure> {
+    let mut out = Vec::new();
+    if prop != "C08" {
+        return out;
+    }
+    let damaged = apply_damage(image, ops);
+    let policy = d.world.policy;
+    let Ok((w, obs)) = recover(&damaged, &d.names, policy, &case.knobs) else { return out };
+    let mut model = d.model.clone();
+    model.rebase(&obs);
+    let mut cd = Driver::adopt(w, model, case.probe_seed ^ 0xC08C);
+    cd.light = true;
+    cd.lenient = true;
+    let mut a = appended_sets(d);
+    for op in cont {
+        let o = cd.step(op.clone());
+        if let (Op::Append { q, lens, uid, .. }, Outcome::Appended { last: Some(last), .. }) = (op, &o) {
+            let first = last + 1 - lens.len() as u64;
+            let set = a.entry(cd.names[*q].clone()).or_default();
+            for (k, &l) in lens.iter().enumerate() {
+                set.insert(Rec::of(first + k as u64, &crate::model::payload(*uid, k as u32, l as usize)));
+            }
+        }
+        if cd.world.log.is_none() {
+            return out; // open failed after the continuation: allowed (damage reported), nothing returned
+        }
+    }
+    if let Ok(obs2) = cd.world.observe() {
+        if let Some((clause, msg)) = c08_oracle(&a, &obs2) {
+            out.push(fail("C08", &format!("{clause}-after-continuation"), d.steps.len(), format!("damage {:?}, open, then {} and a restart: {msg}", ops, cont.iter().map(|o| o.short()).collect::<Vec<_>>().join(", "))));
+        }
+    }
+    out
+}
+
+/// The scenario of `damage_then` aimed at a two-frame entry: its second frame header (at a block start) is
+/// zeroed so that the log ends right after the first frame; the next entry written after recovery lands exactly
+/// where the lost frame was and has exactly its size.
+pub fn aimed_damage_then(p: &Parsed, d: &Driver, rng: &mut Rng) -> Option<(Vec<DamageOp>, Vec<Op>)> {
+    let cands: Vec<&crate::walparse::Entry> = p.entries.iter().filter(|e| e.last_frame == e.first_frame + 1 && matches!(e.kind, EntryKind::Append { .. })).collect();
+    if cands.is_empty() {
+        return None;
+    }
+    let e = *rng.pick(&cands);
+    let f2 = &p.frames[e.last_frame];
+    let EntryKind::Append { queue, .. } = &e.kind else { return None };
+    let q = d.names.iter().position(|n| n == queue)?;
+    let ops = vec![DamageOp::Zero { file: f2.file, off: f2.off, len: HDR }];
+    let need = f2.len as i64 - 23 - queue.len() as i64;
+    let len = if need >= 0 && rng.chance(3, 4) { need as u32 } else { rng.below(2000) as u32 };
+    let cont = vec![Op::Append { q, pos: None, lens: vec![len], uid: 5_000_001 + 2 * rng.below(1000) as u32 }, Op::Restart { policy: None }];
+    Some((ops, cont))
 }
